@@ -119,6 +119,12 @@ func msgFile() *descriptorpb.FileDescriptorProto {
 				f("st", 13, M, ".google.protobuf.Struct", false),
 				f("kids", 14, M, ".verif.v1.Msg", true),
 				f("any_value", 15, M, ".google.protobuf.Any", false),
+				f("labels", 16, M, ".verif.v1.Msg.LabelsEntry", true), // map<string, string>
+				f("kid_map", 17, M, ".verif.v1.Msg.KidMapEntry", true), // map<string, Msg>
+			},
+			NestedType: []*descriptorpb.DescriptorProto{
+				{Name: str("LabelsEntry"), Field: []*descriptorpb.FieldDescriptorProto{f("key", 1, S, "", false), f("value", 2, S, "", false)}, Options: &descriptorpb.MessageOptions{MapEntry: proto.Bool(true)}},
+				{Name: str("KidMapEntry"), Field: []*descriptorpb.FieldDescriptorProto{f("key", 1, S, "", false), f("value", 2, M, ".verif.v1.Msg", false)}, Options: &descriptorpb.MessageOptions{MapEntry: proto.Bool(true)}},
 			},
 		}},
 	}
@@ -270,6 +276,9 @@ func StdMethods() []MethodSpec {
 		{Name: "Bidi", ClientStream: true, ServerStream: true},
 		{Name: "Upload", ClientStream: true, Rule: &Rule{Method: "POST", Path: "/v1/up/{name}", Body: "body"}},
 		{Name: "Download", ServerStream: true, Rule: &Rule{Method: "GET", Path: "/v1/down/{name}", RespBody: "body"}},
+		{Name: "Labels", Rule: &Rule{Method: "PUT", Path: "/v1/labels/{name}", Body: "labels", RespBody: "labels"}},
+		{Name: "KidMap", Rule: &Rule{Method: "PUT", Path: "/v1/kidmap/{name}", Body: "kid_map"}},
+		{Name: "Kids", Rule: &Rule{Method: "PUT", Path: "/v1/kids/{name}", Body: "kids", RespBody: "kids"}},
 	}
 }
 
